@@ -844,6 +844,14 @@ impl<'tcx> Cx<'tcx> {
                         ikv.push(("vis", esc(&format!("{:?}", tcx.visibility(it.def_id)))));
                         let sig = tcx.fn_sig(it.def_id).instantiate_identity().skip_norm_wip();
                         ikv.push(("sig", esc(&with_no_trimmed_paths!(sig.to_string()))));
+                        // the method's own where-clauses (not the impl's): bounds of its closure parameters
+                        let ipreds = tcx.predicates_of(it.def_id);
+                        let ipv: Vec<String> = ipreds
+                            .predicates
+                            .iter()
+                            .map(|(p, _)| esc(&with_no_trimmed_paths!(p.to_string())))
+                            .collect();
+                        ikv.push(("predicates", arr(ipv)));
                     }
                     if matches!(tcx.def_kind(it.def_id), DefKind::AssocConst { .. }) {
                         // value of an associated constant that does not depend on the impl's parameters
